@@ -587,6 +587,30 @@ Theorem C04_reads_without_sticky_refuted :
 Proof. exact reads_without_sticky_refuted. Qed.
 Print Assumptions C04_reads_without_sticky_refuted.
 
+(* EOF from the connection, and interim heads over several exchanges: a connection that has
+   reported EOF - with or without data in the same Read - is never offered for reuse; every
+   exchange counts its interim heads from zero (one loop step costs one count below the bound);
+   a count carried on the connection (seeded g-m2) refuses a response with two hints that a
+   fresh count accepts. *)
+Theorem C04_eof_never_reused : forall cv,
+  conn_reusable true cv = false /\ conn_reusable false cv = cv_reusable cv.
+Proof. exact eof_never_reused. Qed.
+Print Assumptions C04_eof_never_reused.
+
+Theorem C04_read_final_skip_step : forall f meth n s r rest,
+  read_response_head meth conn_bufsize s = inr (r, rest) ->
+  is_1xx_nonterminal (r_code r) = true -> n < max_1xx_responses ->
+  read_final (S f) meth n s = read_final f meth (S n) rest.
+Proof. exact read_final_skip_step. Qed.
+Print Assumptions C04_read_final_skip_step.
+
+Theorem C04_carried_interim_count_refuted :
+  (forall m seg, exchange m [] seg = exchange_from 0 m seg) /\
+  exchange_from 4 (bs "GET") hints2_demo = None /\
+  option_map (fun rb => b_data (snd rb)) (exchange_from 0 (bs "GET") hints2_demo) = Some (bs "hi").
+Proof. exact (conj exchange_counts_from_zero carried_interim_count_refuted). Qed.
+Print Assumptions C04_carried_interim_count_refuted.
+
 (* x read buffer sizes: an accepted status line + header block + transfer decision does not
    depend on the read-buffer size *)
 Theorem C04_accepted_head_bufsize_independent : forall meth b1 b2 s r rest,
